@@ -44,6 +44,21 @@ def c06_cases(quick, seed):
             add(b"cmd", [arg])
         add(b"x", [c, [97]])
         add(b"x", [[97, 32, 98], c])
+    # long arguments around internal size thresholds, a special byte at the first / middle / last position or exactly on the threshold
+    for ln in ((64, 256, 1024, 4096) if quick else (63, 64, 65, 127, 128, 129, 255, 256, 257, 1023, 1024, 1025, 4095, 4096, 4097)):
+        for sp in ([], SP, DQ, BS, SQ, EAC, C1):
+            for pos in (0, ln // 2, ln - 1):
+                arg = [97] * ln
+                arg[pos:pos + 1] = sp if sp else [97]
+                add(b"cmd", [arg])
+                add(b"find", [[97], arg, [98, 32, 99]])
+    # many arguments: a special one at a late position
+    for n in (16, 33, 64, 100):
+        for sp in (SP, DQ, BS, []):
+            args = [[97 + (i % 26)] for i in range(n)]
+            args[n - 1] = [120] + sp + [121]
+            args[n // 2] = sp + [122]
+            add(b"cmd", args)
     # accepted names of length <= 3 over {a, Z, _} (and digits, which the builder may or may not take)
     for n in range(1, 4):
         for t in itertools.product([97, 90, 95, 48], repeat=n):
